@@ -19,7 +19,9 @@ first character;  aux: paren depth (call) / last-character flag (word).
 """
 from pyvc.terms import Fold, CharClass, ite, eq, unit, empty, AND, OR, NOT, rep, cat
 
-N, D = 0, 1
+N, D, R = 0, 1, 2          # normal / after `$` / inside a `$(name)` reference
+VAR = -2                   # marker emitted for a variable reference (its value is substituted by make, not rescanned)
+LPAR, RPAR = ord('('), ord(')')
 DOLLAR, BS, HASH, COMMA, LP, RP, TILDE = ord('$'), ord('\\'), ord('#'), ord(','), ord('('), ord(')'), ord('~')
 PREFIX = CharClass.of('@-+', 'recipe-prefix')
 LINEBREAK = CharClass.of('\n\r', 'linebreak')
@@ -32,9 +34,16 @@ TAIL_BAD = CharClass.of(' &', 'tail-bad')
 def _recipe_step(st, c):
     q, ok, pos0 = st
     is_d = eq(c, DOLLAR)
-    q2 = ite(eq(q, N), ite(is_d, D, N), N)
-    bad = OR(AND(eq(q, D), NOT(is_d)), AND(eq(pos0, 1), PREFIX.contains(c)), LINEBREAK.contains(c))
-    out = ite(eq(q, N), ite(is_d, empty(), unit(c)), unit(c))
+    is_l, is_r = eq(c, LPAR), eq(c, RPAR)
+    q2 = ite(eq(q, N), ite(is_d, D, N),
+         ite(eq(q, D), ite(is_l, R, N),
+             ite(is_r, N, R)))
+    bad = OR(AND(eq(q, D), NOT(OR(is_d, is_l))),
+             AND(eq(q, R), OR(is_d, is_l)),                 # nested references / function calls: not modelled
+             AND(eq(pos0, 1), PREFIX.contains(c)), LINEBREAK.contains(c))
+    out = ite(eq(q, N), ite(is_d, empty(), unit(c)),
+          ite(eq(q, D), ite(is_l, empty(), unit(c)),
+              ite(is_r, unit(VAR), empty())))
     return (q2, ite(bad, 0, ok), 0), out
 
 
